@@ -83,6 +83,33 @@ def draw(rnd, want_class, want_side, mn):
     return None
 
 
+def draw_fixed_text(rnd, mn):
+    """The *text* is chosen first and kept as it is - a colour with a channel in the sRGB toe (0..18: teal, dark cyan, orange, deep sky
+    blue ...), a near-black / dark red-brown, or a CSS keyword colour - and the background is steered until the pair sits just under
+    the minimum. The stratified draw above moves the text towards the background and so hardly ever yields such texts."""
+    from cmv.oracles import csscolor
+    for _ in range(40):
+        k = rnd.randrange(4)
+        if k == 0:
+            t = [rnd.randrange(0, 19), rnd.randrange(256), rnd.randrange(256)]
+            rnd.shuffle(t)
+        elif k == 1:
+            t = [rnd.randrange(0, 19), rnd.randrange(100, 256), rnd.randrange(100, 256)]
+            rnd.shuffle(t)
+        elif k == 2:
+            t = [rnd.randrange(0, 70), rnd.randrange(0, 30), rnd.randrange(0, 12)]
+        else:
+            kw = csscolor.keywords()
+            t = kw[rnd.choice(sorted(kw))]
+        t = tuple(t)
+        b0 = G.uniform(rnd)
+        b = G.steer(b0, t, mn * rnd.uniform(0.86, 0.9995))
+        if b is None or not (0.8 * mn <= wcag.ratio(t, b) < mn):
+            continue
+        return t, tuple(b)
+    return None
+
+
 def shards(tier, seed):
     z = SIZES[tier]
     return [{"kind": "witness", "seed": seed, "idx": i, "witnesses": z["witnesses"], "tries": z["tries"]} for i in range(z["shards"])]
@@ -126,7 +153,9 @@ def judge_pair(lib, rec, text, bg, large, vr, up, down):
         d = own_de(text, tuple(colour))
         rec.maxi("max_returned_dE_on_witness_pairs", round(d, 4))
         if d > 2.0 + DE_SLACK:
-            rec.violation(f"text={text} bg={bg} large={large} vr={vr} mode={mode}: witness exists but returned {colour} is dE {d:.3f} > 2.0 away", case)
+            # on pairs of the known-finding class (no witness on the side the library searches) the lightness search finds nothing
+            # and a later phase may still succeed with a colour further away: same mechanism, same key
+            rec.violation(f"text={text} bg={bg} large={large} vr={vr} mode={mode}: witness exists but returned {colour} is dE {d:.3f} > 2.0 away", case, key=key)
         # the same obligation through the bulk API, the pair placed after its twin at the other text size
         if key is None:
             try:
@@ -198,7 +227,9 @@ def work(shard, rec):
         i += 1
         tries += 1
         mn = wcag.minimum(lg, vr)
-        g = draw(rnd, c, s, mn)
+        g = draw_fixed_text(rnd, mn) if tries % 4 == 0 else draw(rnd, c, s, mn)
+        if g and tries % 4 == 0:
+            rec.count("fixed_text_draws")
         if not g:
             rec.count("draw_failed")
             continue
